@@ -98,32 +98,27 @@ def digest_case(name, chunks, prefix="d"):
 
 
 def gen_digest_cases(ck, rng, names):
+    """every message length 0..2B+17 (quick) / 0..2B+40 (thorough) with: all 2-splits for short
+    messages, splits at the block edges, random k-splits; thorough adds the lengths up to 2100
+    whose residue is near a block or padding edge.  Each case re-hashes after reset."""
     cases = []
     for name in names:
         B, _ = DIGESTS[name]
-        N = sc(ck, 2 * B + 17, 2100)
-        nrand = sc(ck, 3, 64)
+        lb = 16 if B == 128 else 8                 # length-field bytes (irrelevant but harmless for sha3)
+        N = sc(ck, 2 * B + 17, 2 * B + 40)
+        nrand = sc(ck, 3, 64 if name in MD_DIGESTS else 24)
         small = sc(ck, 20, 48)
-        lens = list(range(0, N + 1))
-        for L in lens:
-            if not qk(ck) and L > 2 * B + 40 and L % 7 not in (0, 3):
-                # thorough: all lengths up to 2B+40, beyond that 2 of 7 residues + block edges
-                if (L % B) not in (0, 1, B - 1) and ((L + 9) % B) not in (0, 1, B - 1) and ((L + 17) % B) not in (0, 1, B - 1):
-                    continue
+        for L in range(0, N + 1):
             msg = rng.bytes(L)
             cutsets = []
-            # all 2-splits for small lengths
             if L <= small:
                 cutsets += [[i] for i in range(0, L + 1)]
-            # splits at block boundaries
             for b in (0, 1, B - 1, B, B + 1, 2 * B - 1, 2 * B, 2 * B + 1, L - 1, L):
                 if 0 <= b <= L:
                     cutsets.append([b])
             cutsets.append([B - 1, B + 1])
             cutsets.append([1, B, 2 * B])
-            # random k-splits
-            nr = nrand if (qk(ck) or L <= 2 * B + 40) else 6
-            for _ in range(nr):
+            for _ in range(nrand):
                 k = 1 + rng.below(6)
                 cutsets.append([rng.below(L + 1) for _ in range(k)])
             seen = set()
@@ -133,6 +128,16 @@ def gen_digest_cases(ck, rng, names):
                     continue
                 seen.add(key)
                 cases.append(digest_case(name, split_at(msg, cs)))
+        if not qk(ck):
+            edge = {0, 1, 2, B - 1, B - 2, (B - lb) % B, (B - lb - 1) % B, (B - lb + 1) % B}
+            for L in range(N + 1, 2101):
+                if L % B not in edge:
+                    continue
+                msg = rng.bytes(L)
+                for cs in ([], [B * (1 + rng.below(L // B))], [rng.below(L + 1) for _ in range(3)],
+                           [rng.below(L + 1) for _ in range(8)]):
+                    chunks = split_at(msg, cs)
+                    cases.append(["d.new " + name] + ["d.upd " + vf.hexs(c) for c in chunks] + ["d.fin"])
     return cases
 
 
@@ -140,7 +145,7 @@ def gen_hmac_cases(ck, rng, names):
     cases = []
     for name in names:
         B, R = DIGESTS[name]
-        reps = sc(ck, 1, 6)
+        reps = sc(ck, 1, 4)
         for kl in range(0, 2 * B + 2):
             for _ in range(reps):
                 key = rng.bytes(kl)
@@ -183,7 +188,7 @@ def gen_sponge_cases(ck, rng):
     caps = list(range(8, 1600, 8))
     # rejected capacities
     cases.append(["k.init 0", "k.abs 00", "k.init 7", "k.init 1600", "k.init 1593", "k.init 12", "k.init 1592", "k.dump"])
-    per_cap = sc(ck, 3, 24)
+    per_cap = sc(ck, 3, 20)
     for cap in caps:
         r = (1600 - cap) // 8
 
@@ -442,8 +447,11 @@ def run(ck):
     par_compare(ck, h64, dcmd, cha, "chacha")
     keccak_all = kd + hm_k + shk + spg + prm
     par_compare(ck, h64, dcmd, keccak_all, "keccak-64bit")
-    par_compare(ck, hsmall, dcmd, keccak_all, "keccak-small")
-    par_compare(ck, h32, dcmd, keccak_all, "keccak-32bit")
+    # the other two code paths: everything at quick volume; at thorough volume every sponge / prng /
+    # permutation case and a third of the (much more numerous) digest and HMAC cases
+    k_other = keccak_all if qk(ck) else (kd[::3] + hm_k[::3] + shk + spg + prm)
+    par_compare(ck, hsmall, dcmd, k_other, "keccak-small")
+    par_compare(ck, h32, dcmd, k_other, "keccak-32bit")
     par_compare(ck, h64, ref, refc, "reference-hashlib")
     par_compare(ck, hsmall, ref, [c for c in refc if any(k in c[0] for k in ("sha3", "shake"))], "reference-hashlib-small")
     par_compare(ck, h32, ref, [c for c in refc if any(k in c[0] for k in ("sha3", "shake"))], "reference-hashlib-32bit")
